@@ -439,33 +439,39 @@ Section RoamProofs.
     repeat split; try apply sort_sorted; apply sort_NoDup; [assumption|].
     unfold ids. rewrite map_map. cbn [Roam.remeasure m_id]. exact Hnf.
   Qed.
-  (* the search rectangle contains the circle: every object within the radius is visited *)
-  Hypothesis Hr : forall c r o, (dist c o <= r)%Z -> in_rect c r o = true.
+  (* the search rectangle contains the circle: every object within the radius is visited.
+     geo.RectFromCenter collapses to the centre point for radii below about 0.28 m (cos r rounds
+     to 1), so the hypothesis is only asked for radii from rmin upwards (known finding C20-tiny-radius) *)
+  Variable rmin : Z.
+  Hypothesis Hr : forall c r o, (rmin <= r)%Z -> (dist c o <= r)%Z -> in_rect c r o = true.
 
   Lemma nearbys_In_r col sw ob m :
-    In m (nearbys col sw (Some ob)) <-> exists o, In o col /\ candidate sw ob o /\ m = match_of ob o.
+    (rmin <= rs_meters sw)%Z ->
+    (In m (nearbys col sw (Some ob)) <-> exists o, In o col /\ candidate sw ob o /\ m = match_of ob o).
   Proof.
-    rewrite nearbys_In. split.
+    intro Hmin. rewrite nearbys_In. split.
     - intros (o & ? & _ & ? & ?). eauto.
-    - intros (o & ? & Hc & ?). exists o. repeat split; auto; try apply Hc. apply Hr. apply Hc.
+    - intros (o & ? & Hc & ?). exists o. repeat split; auto; try apply Hc. apply Hr; [assumption|apply Hc].
   Qed.
 
   Lemma nearbys_id_iff col sw ob o :
+    (rmin <= rs_meters sw)%Z ->
     NoDup (map o_id col) -> In o col ->
     (In (o_id o) (ids (nearbys col sw (Some ob))) <-> candidate sw ob o).
   Proof.
-    intros Hnd Ho. split.
+    intros Hmin Hnd Ho. split.
     - intro Hin. apply in_map_iff in Hin. destruct Hin as (m & Hid & Hm).
-      apply nearbys_In_r in Hm. destruct Hm as (o' & Ho' & Hc & ->). cbn in Hid.
+      apply nearbys_In_r in Hm; [|assumption]. destruct Hm as (o' & Ho' & Hc & ->). cbn in Hid.
       now rewrite <- (NoDup_map_inj o_id col o' o Hnd Ho' Ho Hid).
     - intro Hc. apply in_map_iff. exists (match_of ob o). split; [reflexivity|].
-      apply nearbys_In_r. eauto.
+      apply nearbys_In_r; [assumption|]. eauto.
   Qed.
 
   Definition same_id (obj : robj) (old : option robj) : Prop :=
     forall ob, old = Some ob -> o_id ob = o_id obj.
 
   Theorem roam_nearby_exact col sw obj old near far :
+    (rmin <= rs_meters sw)%Z ->
     NoDup (map o_id col) -> same_id obj old ->
     fence_match_roam col sw obj old = RoamDone near far ->
     forall m, In m near <->
@@ -474,21 +480,22 @@ Section RoamProofs.
         (rs_nodwell sw = true -> forall ob, old = Some ob -> ~ (dist (o_geo ob) (o_geo o) <= rs_meters sw)%Z) /\
         m = {| m_id := o_id o; m_geo := o_geo o; m_meters := dist (o_geo obj) (o_geo o) |}.
   Proof.
-    intros Hnd Hsame Hres m.
+    intros Hmin Hnd Hsame Hres m.
     destruct (roam_result col sw obj old Hnd) as (far0 & near0 & E & _ & Hnear & _).
-    rewrite Hres in E. injection E as -> _. rewrite sort_In, Hnear, nearbys_In_r. split.
+    rewrite Hres in E. injection E as -> _. rewrite sort_In, Hnear, (nearbys_In_r col sw obj m Hmin). split.
     - intros [(o & Ho & Hc & ->) Hd]. exists o. split; [assumption|]. split; [exact Hc|]. split; [|reflexivity].
       intros Hnod ob -> Hle. apply (Hd Hnod). cbn [match_of m_id].
-      apply nearbys_id_iff; [assumption|assumption|].
+      apply nearbys_id_iff; [assumption|assumption|assumption|].
       destruct Hc as (Hne & _ & Him). repeat split; [|assumption|assumption].
       rewrite (Hsame ob eq_refl). assumption.
     - intros (o & Ho & Hc & Hd & ->). split; [exists o; auto|].
       intros Hnod Hin. cbn [m_id] in Hin. destruct old as [ob|]; [|exact Hin].
-      apply nearbys_id_iff in Hin; [|assumption|assumption].
+      apply nearbys_id_iff in Hin; [|assumption|assumption|assumption].
       apply (Hd Hnod ob eq_refl). apply Hin.
   Qed.
 
   Theorem roam_faraway_exact col sw obj old near far :
+    (rmin <= rs_meters sw)%Z ->
     NoDup (map o_id col) -> same_id obj old ->
     fence_match_roam col sw obj old = RoamDone near far ->
     forall m, In m far <->
@@ -497,23 +504,23 @@ Section RoamProofs.
         ~ (dist (o_geo obj) (o_geo o) <= rs_meters sw)%Z /\
         m = {| m_id := o_id o; m_geo := o_geo o; m_meters := dist (o_geo o) (o_geo obj) |}.
   Proof.
-    intros Hnd Hsame Hres m.
+    intros Hmin Hnd Hsame Hres m.
     destruct (roam_result col sw obj old Hnd) as (far0 & near0 & E & Hfar & _ & _).
     rewrite Hres in E. injection E as _ ->. rewrite sort_In, in_map_iff. split.
     - intros (x & <- & Hx). apply Hfar in Hx. destruct Hx as [Hx Hn].
       destruct old as [ob|]; [|destruct Hx].
-      apply nearbys_In_r in Hx. destruct Hx as (o & Ho & Hc & ->).
+      apply nearbys_In_r in Hx; [|assumption]. destruct Hx as (o & Ho & Hc & ->).
       exists o, ob. split; [reflexivity|]. split; [assumption|].
       pose proof (Hsame ob eq_refl) as Hid. destruct Hc as (Hne & Hle & Him).
       split; [repeat split; try assumption; now rewrite <- Hid|]. split; [|reflexivity].
-      intro Hle'. apply Hn. cbn [match_of m_id]. apply nearbys_id_iff; [assumption|assumption|].
+      intro Hle'. apply Hn. cbn [match_of m_id]. apply nearbys_id_iff; [assumption|assumption|assumption|].
       repeat split; try assumption. now rewrite <- Hid.
     - intros (o & ob & -> & Ho & (Hne & Hle & Him) & Hn & ->).
       pose proof (Hsame ob eq_refl) as Hid.
       exists (match_of ob o). split; [reflexivity|]. apply Hfar. split.
-      + apply nearbys_In_r. exists o. split; [assumption|]. split; [|reflexivity].
+      + apply nearbys_In_r; [assumption|]. exists o. split; [assumption|]. split; [|reflexivity].
         repeat split; try assumption. now rewrite Hid.
-      + cbn [match_of m_id]. intro Hin. apply nearbys_id_iff in Hin; [|assumption|assumption].
+      + cbn [match_of m_id]. intro Hin. apply nearbys_id_iff in Hin; [|assumption|assumption|assumption].
         apply Hn. apply Hin.
   Qed.
 
@@ -529,9 +536,9 @@ Module Plane.
   Definition prect (c : P) (r : Z) (o : P) : bool :=
     Z.leb (sq (fst c - fst o)) r && Z.leb (sq (snd c - snd o)) r.
 
-  Lemma prect_contains_disc : forall c r o, (pdist c o <= r)%Z -> prect c r o = true.
+  Lemma prect_contains_disc : forall c r o, (0 <= r)%Z -> (pdist c o <= r)%Z -> prect c r o = true.
   Proof.
-    intros c r o. unfold pdist, prect, sq. intro H.
+    intros c r o _. unfold pdist, prect, sq. intro H.
     pose proof (Z.square_nonneg (fst c - fst o)). pose proof (Z.square_nonneg (snd c - snd o)).
     apply andb_true_iff. split; apply Z.leb_le; lia.
   Qed.
@@ -570,4 +577,16 @@ Module Plane.
     RoamDone [{| m_id := b 99; m_geo := (300, 400)%Z; m_meters := 250000%Z |}]
              [{| m_id := b 101; m_geo := (5000, 300)%Z; m_meters := 25090000%Z |}].
   Proof. vm_compute. reflexivity. Qed.
+
+  (* a rectangle function that, like geo.RectFromCenter, collapses to the centre for tiny radii *)
+  Definition prect_degenerate (c : P) (r : Z) (o : P) : bool :=
+    if Z.ltb r 100 then Z.eqb (fst c) (fst o) && Z.eqb (snd c) (snd o) else prect c r o.
+  Definition sw_tiny : roamsw := roam_parse (b 42) 50%Z false true.
+  Definition col_tiny : list (robj P) := [mk 97 0 0; mk 98 3 4].
+  (* the neighbour at distance^2 25 <= 50 matches the pattern and is not self, yet nothing is reported *)
+  Lemma tiny_radius_misses :
+    fence_match_roam P pdist prect_degenerate col_tiny sw_tiny (mk 97 0 0) None = RoamDone [] [] /\
+    In (mk 98 3 4) col_tiny /\ (pdist (0, 0)%Z (3, 4)%Z <= rs_meters sw_tiny)%Z /\
+    id_match sw_tiny (b 98) = true.
+  Proof. vm_compute. repeat split; auto; discriminate. Qed.
 End Plane.
